@@ -487,7 +487,7 @@ func run() int {
 	case inconclusive > 0:
 		exit = 2
 	}
-	if !*flagNoEvidence {
+	if !*flagNoEvidence && prop != "SELFTEST" {
 		writeEvidence(prop, tier, results, kfs, time.Since(t0).Seconds(), loadS, violations, inconclusive)
 	}
 	if exit == 0 {
